@@ -25,6 +25,7 @@
 // ancestors' names (OUT exists in the sandbox, Out does not), relative and absolute; regular/dir/symlink/hardlink).
 // Blocks, simplest first: all single entries of the full alphabet x 4 entry points x every
 // configuration; all ordered pairs over the pair alphabet (1 layer and split over 2 layers);
+// normalised escapes (names that only leave the designated directory after path cleaning, 1-4 levels);
 // shapes (layer-less images, empty-tar layers, history-only/missing/mismatched history); spellings
 // (the unpack target nested as S/outer/out and spelled with trailing slash, doubled slash, '.' and
 // '..' segments, relative to the working directory); chains (two links that only escape together + a write-through into every existing sandbox sibling
@@ -156,6 +157,32 @@ func forEachImageCase(thorough bool, fn func(idx int, c imgCase) bool) []blockIn
 	for _, e := range full {
 		for _, ec := range singleEPs() {
 			emit(imgCase{EP: ec.EP, Cfg: ec.Cfg, Layers: [][]entry{{e}}})
+		}
+	}
+	end()
+
+	// normalised escapes: names that leave the designated directory only after normalisation (they do
+	// not START with "../"): <dir>/../../<x> with 1..4 net levels up, ./../<x>, /<dir>/./../../<x>,
+	// <dir>//../..//<x>; <x> a fresh name, TMPDIR / cwd decoys, an existing sibling. Relative to the
+	// unpack target S/out one level up is S, relative to a layer directory in TMPDIR two levels up is
+	// TMPDIR and three are S.
+	begin("normalised escapes: 4 spellings x 1-4 net levels up x 5 landing names x file/dir/symlink/hardlink x every entry point x every configuration")
+	for lvl := 1; lvl <= 4; lvl++ {
+		ups := strings.Repeat("../", lvl)
+		for _, x := range []string{"a", "file", "out2/a", "tmp/file", "cwd/file"} {
+			for _, n := range []string{"a/../" + ups + x, "./" + ups + x, "/a/./../" + ups + x, "a//../" + strings.ReplaceAll(ups, "../", "..//") + x} {
+				es := []entry{{Name: n, Kind: "f"}, {Name: n, Kind: "d"}}
+				for _, k := range []string{"s", "h"} {
+					for _, t := range []string{"a", "..", "/a"} {
+						es = append(es, entry{Name: n, Kind: k, Target: t})
+					}
+				}
+				for _, e := range es {
+					for _, ec := range singleEPs() {
+						emit(imgCase{EP: ec.EP, Cfg: ec.Cfg, Layers: [][]entry{{e}}})
+					}
+				}
+			}
 		}
 	}
 	end()
@@ -836,9 +863,9 @@ func main() {
 		list()
 		return
 	}
-	r := ev.Start("C06", "exploration", 230*time.Second, 38*time.Minute)
+	r := ev.Start("C06", "exploration", 5*time.Minute, 45*time.Minute)
 	start := time.Now()
-	budget := ev.Pick(r, 230*time.Second, 38*time.Minute)
+	budget := ev.Pick(r, 5*time.Minute, 45*time.Minute)
 	if s, err := strconv.Atoi(os.Getenv("VERIF_BUDGET_S")); err == nil && s > 0 {
 		budget = time.Duration(s) * time.Second
 	}
